@@ -304,6 +304,53 @@ pub fn description_states(thorough: bool, seeds: u64) -> (Vec<Json>, Vec<(String
             states.push(json!({"prog": serde_json::to_value(arms_program(&s.expr, pos, false, "N")).unwrap(), "seeds": seeds}));
         }
     }
+    // D-rec: one input per shortcut of the recursion guard - an enum whose one recursive variant holds
+    // k self references (through Box / Vec / Option<Box>), reached r times from a root struct
+    let mut rec = 0u64;
+    for k in 1..=3usize {
+        for r in 1..=3usize {
+            for via in [Label::Boxed, Label::Vec, Label::OptBox] {
+                let wrap = |t: Ty| match via {
+                    Label::Boxed => Ty::Box(b(t)),
+                    Label::Vec => Ty::Vec(b(t)),
+                    _ => Ty::Option(b(Ty::Box(b(t)))),
+                };
+                let tree = Def::enm(
+                    &["g", "t"],
+                    "Tree",
+                    &[],
+                    vec![
+                        variant("Leaf", Fields::Unit),
+                        variant("Node", Fields::Unnamed((0..k).map(|_| Field::new(wrap(Ty::Named(0, vec![])))).collect())),
+                    ],
+                );
+                let forest = Def::strukt(
+                    &["g", "t"],
+                    "Forest",
+                    &[],
+                    Fields::Named((0..r).map(|i| (format!("t{i}"), Field::new(Ty::Named(0, vec![])))).collect()),
+                );
+                let prog = Program {
+                    defs: vec![tree, forest],
+                    roots: vec![Ty::Named(1, vec![])],
+                };
+                states.push(json!({"prog": serde_json::to_value(prog).unwrap(), "seeds": seeds.max(if thorough { 64 } else { 24 })}));
+                rec += 1;
+            }
+        }
+    }
+    info.push(("D-rec(recursive enum with k<=3 self references in one variant, reached r<=3 times, via Box/Vec/Option<Box>)".into(), rec, rec, true));
+    // D-width: many draws of every integer kind per seed ([[p; 32]; 32])
+    let mut width = 0u64;
+    for p in Prim::INTS {
+        let prog = Program {
+            defs: vec![],
+            roots: vec![Ty::Array(b(Ty::Array(b(Ty::Prim(p)), 32)), 32)],
+        };
+        states.push(json!({"prog": serde_json::to_value(prog).unwrap(), "seeds": seeds}));
+        width += 1;
+    }
+    info.push(("D-width(1024 values of each integer kind per seed)".into(), width, width, true));
     // D-chain
     let n = crate::run::polkadot_registry().types.len() as u64;
     let step = 16;
